@@ -4,8 +4,15 @@
 (* (pkg/p2p conngater.go, peer.go, ratelimit.go) - property C18.           *)
 (*                                                                         *)
 (* Per IP:  st[ip] = [score, expiry (-1 = not banned, else the tick at     *)
-(* which the ban expires), pen[proc] (penalised for proc in the current    *)
-(* rate window)].  `blocked` is the permanent blacklist.                   *)
+(* which the ban expires), pen[peer][proc] (2: that peer was penalised for *)
+(* proc in the current rate window, 1: in the previous one, 0: neither,    *)
+(* -1: the peer never used proc before this tick)].                        *)
+(* `blocked` is the permanent blacklist.  Several peers (peer ids) may sit *)
+(* behind one IP: messages are counted per peer and procedure, penalties   *)
+(* accumulate per IP.  An IP is ONE identity whatever its spelling (dotted,*)
+(* IPv4-mapped IPv6, expanded / compressed / upper-case IPv6): spellings   *)
+(* do not occur in this module at all; MCConnGater attaches one to every   *)
+(* step and to the blacklist configuration of a generated schedule.        *)
 (*                                                                         *)
 (* Time.  `now` counts ticks.  Inside a tick the order is: the penalty /   *)
 (* message actions (swept = FALSE), then - at the half tick - the periodic *)
@@ -22,11 +29,21 @@
 (*    after a sweep that follows the expiry the IP is clean: score 0,      *)
 (*    accepted by every gate;                                              *)
 (*  - a further penalty on a banned IP may or may not extend the ban;      *)
-(*  - a message must be penalised when the fixed window holds more than    *)
-(*    Limit messages and no penalty was given in it yet, must not be       *)
-(*    penalised when this and the previous window together hold at most    *)
-(*    Limit (no interval of one window length can hold more), and may be   *)
-(*    penalised otherwise.                                                 *)
+(*  - the statement does not say where the rate windows lie (aligned to    *)
+(*    the start of the limiter, to the wall clock, per peer to its first   *)
+(*    message, sliding).  A window is one tick long; the messages of one   *)
+(*    tick arrive at one instant.  A message must NOT be penalised when    *)
+(*    this and the previous tick together hold at most Limit messages of   *)
+(*    that peer and procedure (no interval of one window length holds      *)
+(*    more: within the limit under EVERY placement).  It MUST be penalised *)
+(*    when it exceeds the limit under every placement and no penalty is    *)
+(*    on record: the messages of this tick alone exceed Limit and either   *)
+(*    they are the first traffic ever of that peer and procedure (a window *)
+(*    anchored at an earlier message of the peer could otherwise end right *)
+(*    inside the burst) or they exceed 2 * Limit (some part on one side of *)
+(*    any boundary exceeds Limit).  It MAY be penalised otherwise.         *)
+(*    pen[peer][proc]: -1 no traffic before this tick, 2 penalised in this *)
+(*    window, 1 in the previous one, 0 neither.                            *)
 (* The nondeterministic outcomes are given as successor SETS of the local  *)
 (* state (PenSucc, MsgSucc, SweepSucc) so that MCConnGater can compute the *)
 (* set of states allowed after every step of a schedule.                   *)
@@ -40,6 +57,7 @@ CONSTANTS IPs,          \* IP addresses (strings; one of them IPv6)
           MaxTime,      \* last tick
           SweepPeriods, \* possible sweep periods in ticks
           Blocklists,   \* possible blacklists (subsets of IPs)
+          Peers,        \* peer ids behind one IP (message counters are per peer id)
           Procs,        \* RPC procedures with a message counter
           Limit,        \* messages allowed per window and procedure
           RatePenalty,  \* penalty for exceeding Limit
@@ -50,8 +68,8 @@ VARIABLES st, win, prevwin, blocked, now, period, phase, swept, last
 vars == <<st, win, prevwin, blocked, now, period, phase, swept, last>>
 View == <<st, win, prevwin, blocked, now, period, phase, swept>>   \* `last` only labels the step
 
-NoPen == [p \in Procs |-> FALSE]
-ZeroWin == [ip \in IPs |-> [p \in Procs |-> 0]]
+NoPen == [q \in Peers |-> [p \in Procs |-> -1]]
+ZeroWin == [ip \in IPs |-> [q \in Peers |-> [p \in Procs |-> 0]]]
 CleanState == [score |-> 0, expiry |-> -1, pen |-> NoPen]
 
 (* ------------------------- local (per IP) state -------------------------- *)
@@ -70,18 +88,18 @@ PenSucc(ls, n, t) ==
 \* the periodic sweep at time t + 1/2
 SweepSucc(ls, t) == IF Expired(ls, t) THEN {Clean(ls)} ELSE {ls}
 
-\* one message of procedure p; w = messages of this window including this one, pw = previous window
-PenChoices(ls, p, w, pw) ==
+\* one message of peer q for procedure p; w = messages of (q, p) in this window including this one, pw = previous window
+PenChoices(ls, q, p, w, pw) ==
   IF w + pw <= Limit THEN {FALSE}
-  ELSE IF w > Limit /\ ~ls.pen[p] THEN {TRUE}
+  ELSE IF w > Limit /\ (ls.pen[q][p] = -1 \/ (ls.pen[q][p] = 0 /\ w > 2 * Limit)) THEN {TRUE}
   ELSE {TRUE, FALSE}
-MsgSucc(ls, p, w, pw, t) ==
-  UNION {IF b THEN {[x EXCEPT !.pen[p] = TRUE] : x \in PenSucc(ls, RatePenalty, t)} ELSE {ls}
-         : b \in PenChoices(ls, p, w, pw)}
-RECURSIVE BurstSucc(_, _, _, _, _, _)
-BurstSucc(S, p, w, pw, t, k) ==       \* k messages after w earlier ones in this window
+MsgSucc(ls, q, p, w, pw, t) ==
+  UNION {IF b THEN {[x EXCEPT !.pen[q][p] = 2] : x \in PenSucc(ls, RatePenalty, t)} ELSE {ls}
+         : b \in PenChoices(ls, q, p, w, pw)}
+RECURSIVE BurstSucc(_, _, _, _, _, _, _)
+BurstSucc(S, q, p, w, pw, t, k) ==       \* k messages after w earlier ones in this window
   IF k = 0 THEN S
-  ELSE BurstSucc(UNION {MsgSucc(x, p, w + 1, pw, t) : x \in S}, p, w + 1, pw, t, k - 1)
+  ELSE BurstSucc(UNION {MsgSucc(x, q, p, w + 1, pw, t) : x \in S}, q, p, w + 1, pw, t, k - 1)
 
 \* answers a gate may give for an address of ip (TRUE = allow)
 GateLocal(ls, isBlocked, t) ==
@@ -95,7 +113,7 @@ Kinds == {"AddrDial", "Accept", "Secured"}     \* outbound dial; inbound accept;
 Intercept(kind, ip) == GateLocal(st[ip], ip \in blocked, now)   \* the same rule for every gate
 
 SweepDue == now % period = phase
-Act(a, ip, n, p, k) == [a |-> a, ip |-> ip, n |-> n, proc |-> p, k |-> k]
+Act(a, ip, n, p, k, q) == [a |-> a, ip |-> ip, n |-> n, proc |-> p, k |-> k, peer |-> q]
 
 Init ==
   /\ st = [ip \in IPs |-> CleanState]
@@ -103,53 +121,56 @@ Init ==
   /\ blocked \in Blocklists
   /\ now = 0 /\ swept = FALSE
   /\ period \in SweepPeriods /\ phase \in 0..(period - 1)
-  /\ last = Act("init", "-", 0, "-", 0)
+  /\ last = Act("init", "-", 0, "-", 0, "-")
 
 AddPenalty(ip, n) ==
   /\ ~swept /\ st[ip].score + n <= ScoreCap
   /\ \E x \in PenSucc(st[ip], n, now) : st' = [st EXCEPT ![ip] = x]
-  /\ last' = Act("pen", ip, n, "-", 0)
+  /\ last' = Act("pen", ip, n, "-", 0, "-")
   /\ UNCHANGED <<win, prevwin, blocked, now, period, phase, swept>>
 
 Ban(ip) ==
   /\ ~swept /\ st[ip].score + MaxScore <= ScoreCap
   /\ \E x \in PenSucc(st[ip], MaxScore, now) : st' = [st EXCEPT ![ip] = x]
-  /\ last' = Act("ban", ip, MaxScore, "-", 0)
+  /\ last' = Act("ban", ip, MaxScore, "-", 0, "-")
   /\ UNCHANGED <<win, prevwin, blocked, now, period, phase, swept>>
 
-Msg(ip, p, k) ==
-  /\ ~swept /\ st[ip].score + k * RatePenalty <= ScoreCap /\ win[ip][p] + k <= 2 * (Limit + 1)
-  /\ \E x \in BurstSucc({st[ip]}, p, win[ip][p], prevwin[ip][p], now, k) : st' = [st EXCEPT ![ip] = x]
-  /\ win' = [win EXCEPT ![ip][p] = @ + k]
-  /\ last' = Act("msg", ip, 0, p, k)
+Msg(ip, q, p, k) ==
+  /\ ~swept /\ st[ip].score + k * RatePenalty <= ScoreCap /\ win[ip][q][p] + k <= 2 * (Limit + 1)
+  /\ \E x \in BurstSucc({st[ip]}, q, p, win[ip][q][p], prevwin[ip][q][p], now, k) : st' = [st EXCEPT ![ip] = x]
+  /\ win' = [win EXCEPT ![ip][q][p] = @ + k]
+  /\ last' = Act("msg", ip, 0, p, k, q)
   /\ UNCHANGED <<prevwin, blocked, now, period, phase, swept>>
 
 \* the implementation may lift an expired ban by itself at any moment
 Lift(ip) ==
   /\ Expired(st[ip], now)
   /\ st' = [st EXCEPT ![ip] = Clean(@)]
-  /\ last' = Act("lift", ip, 0, "-", 0)
+  /\ last' = Act("lift", ip, 0, "-", 0, "-")
   /\ UNCHANGED <<win, prevwin, blocked, now, period, phase, swept>>
 
 Sweep ==
   /\ ~swept /\ SweepDue
   /\ st' = [ip \in IPs |-> CHOOSE x \in SweepSucc(st[ip], now) : TRUE]
   /\ swept' = TRUE
-  /\ last' = Act("sweep", "-", 0, "-", 0)
+  /\ last' = Act("sweep", "-", 0, "-", 0, "-")
   /\ UNCHANGED <<win, prevwin, blocked, now, period, phase>>
 
-TickLocal(ls) == [ls EXCEPT !.pen = NoPen]
+\* w = the message counts of the window that ends
+TickLocal(ls, w) ==
+  [ls EXCEPT !.pen = [q \in Peers |-> [p \in Procs |->
+     IF ls.pen[q][p] > 0 THEN ls.pen[q][p] - 1 ELSE IF ls.pen[q][p] = -1 /\ w[q][p] = 0 THEN -1 ELSE 0]]]
 Tick ==       \* includes the reset of the rate windows (IntervalReset)
   /\ now < MaxTime /\ (SweepDue => swept)
   /\ now' = now + 1 /\ swept' = FALSE
   /\ prevwin' = win /\ win' = ZeroWin
-  /\ st' = [ip \in IPs |-> TickLocal(st[ip])]
-  /\ last' = Act("tick", "-", 0, "-", 0)
+  /\ st' = [ip \in IPs |-> TickLocal(st[ip], win[ip])]
+  /\ last' = Act("tick", "-", 0, "-", 0, "-")
   /\ UNCHANGED <<blocked, period, phase>>
 
 Next ==
   \/ \E ip \in IPs : (\E n \in Penalties : AddPenalty(ip, n)) \/ Ban(ip) \/ Lift(ip)
-  \/ \E ip \in IPs, p \in Procs, k \in Bursts : Msg(ip, p, k)
+  \/ \E ip \in IPs, q \in Peers, p \in Procs, k \in Bursts : Msg(ip, q, p, k)
   \/ Sweep \/ Tick
 Spec == Init /\ [][Next]_vars
 
@@ -171,10 +192,14 @@ CleanAccepted ==
 \* bans expire: right after a sweep only unexpired bans remain; a ban outlives its expiry by less than a period
 SweptClean == swept => \A ip \in IPs : IsBanned(st[ip]) => now < st[ip].expiry
 BanBounded == \A ip \in IPs : IsBanned(st[ip]) => now < st[ip].expiry + period
-\* rate limiter: a penalty in this window implies more than Limit messages within two adjacent windows;
-\* more than Limit messages in this window imply a penalty
-WithinLimitNeverPenalised == \A ip \in IPs, p \in Procs : st[ip].pen[p] => win[ip][p] + prevwin[ip][p] > Limit
-AboveLimitPenalised == \A ip \in IPs, p \in Procs : win[ip][p] > Limit => st[ip].pen[p]
+\* rate limiter: a penalty in this window implies more than Limit messages of that peer and procedure within two
+\* adjacent windows (the traffic of another peer behind the same IP does not count); more than Limit messages in the
+\* first window with traffic, or more than 2 * Limit in any window, imply a penalty on record
+WithinLimitNeverPenalised ==
+  \A ip \in IPs, q \in Peers, p \in Procs : st[ip].pen[q][p] = 2 => win[ip][q][p] + prevwin[ip][q][p] > Limit
+AboveLimitPenalised ==
+  \A ip \in IPs, q \in Peers, p \in Procs :
+     win[ip][q][p] > Limit => (st[ip].pen[q][p] # -1 /\ (win[ip][q][p] > 2 * Limit => st[ip].pen[q][p] > 0))
 
 \* a ban is lifted only after its expiry and leaves a clean score
 LiftOnlyAfterExpiry ==
